@@ -416,7 +416,8 @@ class Agent(dbus.service.Object):
             except Exception as err:
                 self._logger.error('Step %5.1f failed with exception: %s', step.order, err)
                 self._logger.debug('%s', traceback.format_exc())
-                break
+                # the bundle is not in the state the chain was meant to produce
+                raise
 
         if ctr.route and not ctr.sender:
             # Assume the route is a TxRouteItem
